@@ -45,22 +45,24 @@ def parseFieldLine (line : Bytes) : FieldRes :=
     | none => .skip
     | some n => if headerValueValid value then .field n value else .bad .headerValue
 
-/-- Header loop. `fuel` bounds the number of lines; see `headFuel`. -/
-def parseHeadersLoop (S : Src σ) : Nat → σ → Nat → Headers → RR Headers × σ
-  | 0, r, _, _ => (.panic, r)                     -- fuel exhausted: unreachable (lemma)
-  | fuel+1, r, maxHeaders, hs =>
+/-- Header loop. `fuel` bounds the number of lines; see `headFuel`. `cnt` is the number of field
+    lines seen so far (`fields` in the Rust code): every field line counts against `max_headers`,
+    also the ones that are dropped because their name is not a token. -/
+def parseHeadersLoop (S : Src σ) : Nat → σ → Nat → Nat → Headers → RR Headers × σ
+  | 0, r, _, _, _ => (.panic, r)                     -- fuel exhausted: unreachable (lemma)
+  | fuel+1, r, maxHeaders, cnt, hs =>
     match readLineStrict S r Consts.maxLineLen with
     | (.ok line, r') =>
       if line = [] then (.ok hs, r')
-      else if hs.len = maxHeaders then (.err .header, r')
+      else if cnt = maxHeaders then (.err .header, r')
       else
         (match parseFieldLine line with
          | .bad e => (.err e, r')
-         | .skip => parseHeadersLoop S fuel r' maxHeaders hs
+         | .skip => parseHeadersLoop S fuel r' maxHeaders (cnt + 1) hs
          | .field n v =>
            -- `try_append`: capacity error mapped to InvalidResponseKind::Header
            if Headers.full hs n then (.err .header, r')
-           else parseHeadersLoop S fuel r' maxHeaders (hs.append n v))
+           else parseHeadersLoop S fuel r' maxHeaders (cnt + 1) (hs.append n v))
     | (.err e, r') => (.err e, r')
     | (.blocked, r') => (.blocked, r')
     | (.panic, r') => (.panic, r')
@@ -75,7 +77,7 @@ def parseResponseHead (S : Src σ) (r : σ) (maxHeaders : Nat) : RR (Nat × Head
     (match parseStatusLine line with
      | .error e => (.err e, r')
      | .ok status =>
-       (match parseHeadersLoop S (headFuel S r') r' maxHeaders [] with
+       (match parseHeadersLoop S (headFuel S r') r' maxHeaders 0 [] with
         | (.ok hs, r'') => (.ok (status, hs), r'')
         | (.err e, r'') => (.err e, r'')
         | (.blocked, r'') => (.blocked, r'')
